@@ -29,6 +29,17 @@ package buffer
 //@   modifies ehDone(self)
 //@   ensures ehDone(self) == old(ehDone(self)) + 1
 
+//@ iface Buffer.applyErrorHandler
+//@   modifies nothing
+//@   ensures replacement != nil
+// WithErrorHandler keeps applying the handler until a buffer accepts it
+// (trusted: the linear bookkeeping of the verifier cannot follow the buffer
+// through the loop-carried variable).
+//@ func WithErrorHandler
+//@   trusted
+//@   requires b != nil && errorHandler != nil
+//@   modifies nothing
+//@   ensures result != nil
 //@ iface Buffer.toUnvalidatedChunkReader
 //@   modifies nothing
 //@   ensures result != nil && fresh(result) && crPos(result) == off && crClosed(result) == 0
